@@ -380,8 +380,12 @@ class Check:
             "known_findings_hit": sorted(self.known_hits),
             "notes": self.notes,
         }
-        os.makedirs(os.path.join(VERIF, "evidence"), exist_ok=True)
-        with open(os.path.join(VERIF, "evidence", "%s.json" % self.pid), "w") as f:
+        # evidence/ holds runs against /repo itself only; runs against another tree (VERIF_REPO) or experiments
+        # (VERIF_EVIDENCE_DIR) write elsewhere
+        evdir = os.environ.get("VERIF_EVIDENCE_DIR") or (
+            os.path.join(VERIF, "evidence") if os.path.realpath(REPO) == "/repo" else os.path.join(WORK, "evidence_other_tree"))
+        os.makedirs(evdir, exist_ok=True)
+        with open(os.path.join(evdir, "%s.json" % self.pid), "w") as f:
             json.dump(ev, f, indent=1, default=str)
         print("%s %s seed=%d: obligations %d/%d, evaluations %d, violations %d, known %d, %.1fs" % (
             self.pid, self.tier, self.seed, cov["discharged"], cov["obligations"], cov["evaluations"],
